@@ -1,5 +1,5 @@
 (* Model of pymoto/common/dyadcarrier.py : class DyadCarrier (C15), as the code is written
-   (tree at fix commits eba3b5f "dot products" and 3674b14 "slicing").
+   (tree at fix commits eba3b5f "dot products", 3674b14 "slicing", 3e6329a "[:, :] = 0", 843a4ae "contract_multi dtype").
    Data: Gaussian integers (exact image of integer-valued float64 / complex128 arrays); every stored vector
    carries its own dtype flag (false = float64, true = complex128), the carrier carries self.dtype.
    Part 1: the carrier-level model (hand-written, executable).  Part 2: the dense specification the
@@ -335,6 +335,7 @@ Fixpoint set_loop (i j : idx) (ul vl : list vec) : list vec * list vec * option 
 Definition setitem (c : carrier) (i j : idx) (val : C) : carrier * option err :=
   if negb (cis0 val) then (c, Some ValueE) else
   if negb (idx_null i) && negb (idx_null j) then (c, Some IndexE) else
+  if idx_null i && idx_null j then (mkcar [] [] (ulen c) (vlen c) (cplx c), None) else     (* self.u, self.v = [], [] *)
   match set_loop i j (us c) (vs c) with
   | (ul, vl, e) => (mkcar ul vl (ulen c) (vlen c) (cplx c), e)
   end.
@@ -472,6 +473,7 @@ Definition err_eqb (a b : err) : bool :=
 Definition out_eqb (a b : out) : bool :=
   match a, b with
   | ODyad x, ODyad y => carrier_eqb x y
+  | ODyad _, ONone => true        (* observed carriers are compared through the observed slot state *)
   | OScal x f, OScal y g => ceqb x y && Bool.eqb f g
   | OVec x f, OVec y g => vect_eqb x y && Bool.eqb f g
   | OMat r c x f, OMat r' c' y g => (r =? r') && (c =? c') && matr_eqb x y && Bool.eqb f g
